@@ -1,9 +1,10 @@
 (* Executable glue for the C20 correspondence shards. *)
 From Coq Require Import List ZArith NArith QArith Bool Arith.
+From Coq Require String.
 Import ListNotations.
 Close Scope Q_scope.
 Open Scope nat_scope.
-From LV Require Import Base.ListAux Goose.Stopper.
+From LV Require Import Base.ListAux Goose.Stopper Goose.StopperPos.
 
 Definition alphabet : list Q := [0%Q; 1%Q; 2%Q; 3%Q].
 Fixpoint hists (n : nat) : list (list Q) :=
@@ -78,3 +79,78 @@ Definition agrees_keys (l : list nat) : bool := list_eqb Nat.eqb l (seq 0 (lengt
 
 (* the stale-carry variant (code as found, known finding F7): every iteration uses the key of iteration 0 *)
 Definition agrees_keys_stale (l : list nat) : bool := forallb (Nat.eqb 0) l.
+
+(* ---- part D: optim_flat with several named parameters (StopperPos.optim_flat_full) ---- *)
+Record pcase := mkPC {
+  p_st : stopper; p_hv : bool; p_restore : bool; p_save : bool; p_prune : bool;
+  p_params : list name;                       (* as passed by the caller (order matters) *)
+  p_losses : list Q;                          (* observed validation losses up to the last iteration *)
+  p_script : dict (list value);               (* per name: the position after k iterations, k = 0, 1, ... *)
+  p_err : nat;                                (* observed: 0 = returned, 1 = AssertionError (restore needs history) *)
+  p_it : nat; p_ib : Z;
+  p_position : dict value;                    (* observed OptimResult.position *)
+  p_poshist : option (dict (list (option value)));   (* observed history["position"], NaN rows = None *)
+  p_lossobs : list (option Q) }.              (* observed history["loss_validation"], NaN = None *)
+
+Definition value_eqb (a b : value) : bool := list_eqb Qeq_bool a b.
+Definition ovalue_eqb (a b : option value) : bool :=
+  match a, b with Some x, Some y => value_eqb x y | None, None => true | _, _ => false end.
+Definition oq_eqb (a b : option Q) : bool :=
+  match a, b with Some x, Some y => Qeq_bool x y | None, None => true | _, _ => false end.
+Definition opt_eqb {A} (eqb : A -> A -> bool) (a b : option A) : bool :=
+  match a, b with Some x, Some y => eqb x y | None, None => true | _, _ => false end.
+
+(* two dicts agree name by name on the caller's names and have no other keys (order is not compared) *)
+Definition dict_agree {A} (eqb : A -> A -> bool) (names : list name) (model obs : dict A) : bool :=
+  forallb (fun n => opt_eqb eqb (lookup n model) (lookup n obs)) names
+  && forallb (fun n => negb (is_none (lookup n obs))) names
+  && forallb (fun kv => existsb (String.eqb (fst kv)) names) obs
+  && Nat.eqb (List.length obs) (List.length names).
+
+Definition agrees_p (c : pcase) : bool :=
+  let loss := fun k => nth k (p_losses c) 0%Q in
+  let rec := fun k n => match lookup n (p_script c) with Some col => nth k col [] | None => [] end in
+  match optim_flat_full (p_st c) (p_hv c) (p_restore c) (p_save c) (p_prune c) (p_params c) loss rec with
+  | Err AssertRestoreNeedsHistory => Nat.eqb (p_err c) 1
+  | Err _ => false
+  | Ok o =>
+      Nat.eqb (p_err c) 0
+      && Nat.eqb (f_iter o) (p_it c)
+      && (f_best o =? p_ib c)%Z
+      && dict_agree value_eqb (p_params c) (f_position o) (p_position c)
+      && match f_poshist o, p_poshist c with
+         | None, None => true
+         | Some m, Some ob => dict_agree (list_eqb ovalue_eqb) (p_params c) m ob
+         | _, _ => false
+         end
+      && list_eqb oq_eqb (f_losshist o) (p_lossobs c)
+  end.
+
+(* diagnostic: which clause disagrees (1 error kind, 2 iteration, 3 best, 4 position, 5 position history,
+   6 loss history; 0 = agrees) *)
+Definition diag_p (c : pcase) : nat :=
+  let loss := fun k => nth k (p_losses c) 0%Q in
+  let rec := fun k n => match lookup n (p_script c) with Some col => nth k col [] | None => [] end in
+  match optim_flat_full (p_st c) (p_hv c) (p_restore c) (p_save c) (p_prune c) (p_params c) loss rec with
+  | Err AssertRestoreNeedsHistory => if Nat.eqb (p_err c) 1 then 0 else 1
+  | Err _ => 1
+  | Ok o =>
+      if negb (Nat.eqb (p_err c) 0) then 1
+      else if negb (Nat.eqb (f_iter o) (p_it c)) then 2
+      else if negb (f_best o =? p_ib c)%Z then 3
+      else if negb (dict_agree value_eqb (p_params c) (f_position o) (p_position c)) then 4
+      else if negb match f_poshist o, p_poshist c with
+                   | None, None => true
+                   | Some m, Some ob => dict_agree (list_eqb ovalue_eqb) (p_params c) m ob
+                   | _, _ => false
+                   end then 5
+      else if negb (list_eqb oq_eqb (f_losshist o) (p_lossobs c)) then 6 else 0
+  end.
+
+(* batch index generator: the observed rows are the model's rows of the observed permutation *)
+Definition agrees_batches (c : list nat * nat * list (list nat)) : bool :=
+  let '(perm, bs, obs) := c in
+  match batch_indices perm bs with
+  | Some bt => list_eqb (list_eqb Nat.eqb) bt obs
+  | None => false
+  end.
